@@ -37,8 +37,10 @@ var PrefixRegex = regexp.MustCompile(`^##!\^\s*(.*\S)\s*$`)
 var SuffixRegex = regexp.MustCompile(`^##!\$\s*(.*\S)\s*$`)
 
 // ProcessorStartRegex matches any processor start line (##! assemble, ##! define <name> <value>).
-// The name is captured in group 1, the optional value in group 2.
-var ProcessorStartRegex = regexp.MustCompile(`^##!>\s*([a-z]+)(?:\s+([a-z]+))?`)
+// The name is captured in group 1, the optional value in group 2. Name and value are whole
+// words: every `##!>` line names a processor (an unknown or empty name is an error, not a
+// literal line), and `cmdline unix-foo` does not have the value `unix`.
+var ProcessorStartRegex = regexp.MustCompile(`^##!>\s*(\S*)(?:\s+(\S+))?`)
 
 // ProcessorBlockStartRegex matches any processor start line, where the processor has a body
 // (##! assemble, ##! cmdline <value>).
